@@ -62,7 +62,7 @@ class World:
 
     def __init__(self, chooser=None, horizon: float = 60.0, deviations: bool = True,
                  slowcpu: bool = False, lazy_exec: bool = False, max_batches: int = 50000,
-                 early: bool = True, reorder: bool = True, hold: bool = True):
+                 early: bool = True, reorder: bool = True, hold: bool = True, op_anywhere: bool = False):
         self.loop = VLoop()
         self.chooser = chooser or DefaultChooser()
         self.horizon = horizon
@@ -71,6 +71,7 @@ class World:
         self.opt_early = early
         self.opt_reorder = reorder
         self.opt_hold = hold
+        self.op_anywhere = op_anywhere
         self.lazy_exec = lazy_exec
         self.max_batches = max_batches
         self.pending: list[EnvEvent] = []
@@ -90,6 +91,7 @@ class World:
         self.loop.on_executor_job = self._on_executor_job
         self._op_threads: dict[str, list] = {}
         self.keep: list[Any] = []   # keeps weakly referenced observers alive
+        self.await_cycle = False
         self.activate()
 
     # -- lifecycle -------------------------------------------------------------
@@ -217,6 +219,7 @@ class World:
             raise HarnessError(f"max_batches {self.max_batches} exceeded at t={loop.time()}")
         dev = self.deviations
         advanced = False
+        released_here = False
         while True:
             busy = loop.has_ready()
             rel = self.releasable()
@@ -244,8 +247,10 @@ class World:
                         options.append((f'lose:{first.key}', 1, ('lose', first)))
             else:
                 options.append(('adv', 0, ('adv',)))
-            if self._offer_held:
-                for ev in self._heads(True):
+            for ev in self._heads(True):
+                # a held network event comes back around a one-shot deadline; a held *user call* may come at
+                # any later boundary (user code runs whenever it likes)
+                if self._offer_held or (ev.kind == 'op' and self.op_anywhere and not released_here):
                     options.append((f'unhold:{ev.key}', 0, ('rel', ev)))
             c = self._choose('boundary', options)
             label, _cost, action = options[c]
@@ -255,6 +260,7 @@ class World:
                 ev = action[1]
                 ev.held = False
                 self._release(ev, label.split(':', 1)[0])
+                released_here = True
                 continue
             if action[0] == 'hold':
                 action[1].held = True
@@ -370,7 +376,12 @@ class World:
                 if not live:
                     break
                 for t in live:
-                    t.cancel()
+                    try:
+                        t.cancel()
+                    except RecursionError:
+                        # two tasks awaiting each other through gather(): cancellation recurses for ever
+                        self.await_cycle = True
+                        _break_cycle(t)
                 # complete executor jobs and pending events are simply dropped
                 n = 0
                 while loop.has_ready() and n < 1000:
@@ -400,6 +411,51 @@ class World:
             loop.all_tasks_created.clear()
             loop.exc_contexts = []
             sys.unraisablehook = self._old_unraisable
+
+
+def _break_cycle(task):
+    """detaches a task from the future it waits for so that teardown can proceed"""
+    try:
+        fut = task._fut_waiter
+        if fut is not None and hasattr(fut, '_children'):
+            fut._children = []
+        task.cancel()
+    except Exception:
+        pass
+
+
+def find_await_cycle(tasks) -> list:
+    """tasks (transitively) awaiting themselves through gather()/wait futures: returns one cycle or []"""
+    def waits_on(t):
+        fut = getattr(t, '_fut_waiter', None)
+        out = []
+        seen = set()
+        stack = [fut]
+        while stack:
+            f = stack.pop()
+            if f is None or id(f) in seen:
+                continue
+            seen.add(id(f))
+            if isinstance(f, asyncio.Task):
+                out.append(f)
+                continue
+            for child in getattr(f, '_children', []) or []:
+                stack.append(child)
+        return out
+    live = [t for t in tasks if not t.done()]
+    for start in live:
+        path = [start]
+        seen = {id(start)}
+        frontier = [(start, [start])]
+        while frontier:
+            t, p = frontier.pop()
+            for nxt in waits_on(t):
+                if nxt is start:
+                    return p
+                if id(nxt) not in seen and not nxt.done():
+                    seen.add(id(nxt))
+                    frontier.append((nxt, p + [nxt]))
+    return []
 
 
 def _short(value):
